@@ -78,77 +78,114 @@ Qed.
      height (CometBFT), it is empty only at the initial height, where
      LastBlockFees = 0 because InitChain folds them into the common pool
      (apps/staking/genesis.go:41-62)  -> lemma fee_vq_zero_fees;
-   - nVE <= nEV: voting entities are resolved from the signed entries (votes.go:23-43);
-   - wV + wQ <> 0: NOT guaranteed by SanityCheck (only "not all three zero"),
-     but guaranteed when LastBlockFees was produced by disburseFeesP under the
-     SAME weights (lemma fee_p_then_vq_total).  See fee_vq_refuted. *)
+   - nVE <= nEV: voting entities are resolved from the signed entries (votes.go:23-43).
+   No premise on the weights: since commit c9cfe37 a zero vote + next-propose
+   weight sends everything to the common pool.  The ORIGINAL function needed
+   wV + wQ <> 0, which SanityCheck does not give (fee_vq_original_refuted). *)
 Lemma fee_vq_zero_fees nEV nVE wV wQ k : fee_vq 0 nEV nVE wV wQ k = Ok (0, 0, 0).
 Proof. reflexivity. Qed.
 
-Lemma fee_vq_total last nEV nVE wV wQ k :
-  0 < nEV -> nVE <= nEV -> wV + wQ <> 0 ->
-  is_fatal (fee_vq last nEV nVE wV wQ k) = false.
+(* the common tail: pays without error and conserves the pending fees *)
+Lemma fee_vq_tail_ok last nEV nVE perV sNP k :
+  perV * nEV <= last -> nVE <= nEV -> sNP <= perV ->
+  exists a b c, fee_vq_tail last perV sNP nVE k = Ok (a, b, c) /\ a + b * nVE + c = last.
 Proof.
-  intros HnE HnV Hw. unfold fee_vq.
-  destruct (last =? 0); [reflexivity|].
-  rewrite qquo_ok by lia. cbn [bind].
-  set (perV := last / nEV).
-  rewrite qquo_ok by exact Hw. cbn [bind].
-  set (sNP := perV * wQ / (wV + wQ)).
-  assert (HsNP : sNP <= perV) by (apply mul_frac_le; lia).
+  intros Hper HnV HsNP. unfold fee_vq_tail.
   rewrite qsub_ok by exact HsNP. cbn [bind].
-  assert (Hper : perV * nEV <= last) by (apply div_mul_self_le; lia).
   assert (Hper2 : perV * nVE <= last).
   { apply N.le_trans with (perV * nEV); [apply N.mul_le_mono_l; exact HnV|exact Hper]. }
   assert (Hsplit : sNP * nVE + (perV - sNP) * nVE = perV * nVE).
   { rewrite <- N.mul_add_distr_r. f_equal. lia. }
   destruct (negb (sNP * nVE =? 0) && k).
   - rewrite qsub_ok by lia. cbn [bind].
-    destruct (perV - sNP =? 0); [reflexivity|].
-    rewrite qsub_ok by lia. reflexivity.
-  - cbn [bind]. destruct (perV - sNP =? 0); [reflexivity|].
-    rewrite qsub_ok by lia. reflexivity.
+    destruct (perV - sNP =? 0) eqn:E; b2p.
+    + do 3 eexists. split; [reflexivity|]. rewrite E. lia.
+    + rewrite qsub_ok by lia. cbn [bind]. do 3 eexists. split; [reflexivity|]. lia.
+  - cbn [bind]. destruct (perV - sNP =? 0) eqn:E; b2p.
+    + do 3 eexists. split; [reflexivity|]. rewrite E. lia.
+    + rewrite qsub_ok by lia. cbn [bind]. do 3 eexists. split; [reflexivity|]. lia.
 Qed.
 
-(* fees persisted by disburseFeesP are split without error by disburseFeesVQ of
-   the next block PROVIDED the weights are the same in both calls *)
-Lemma fee_p_then_vq_total total wP wV wQ k persist b c nEV nVE k' :
-  wP + wV + wQ <> 0 ->
+(* totality AND conservation, for ALL weights *)
+Lemma fee_vq_ok last nEV nVE wV wQ k :
+  0 < nEV -> nVE <= nEV ->
+  exists a b c, fee_vq last nEV nVE wV wQ k = Ok (a, b, c) /\ a + b * nVE + c = last.
+Proof.
+  intros HnE HnV. unfold fee_vq.
+  destruct (last =? 0) eqn:E0; b2p.
+  - exists 0, 0, 0. split; [reflexivity|lia].
+  - rewrite qquo_ok by lia. cbn [bind].
+    destruct (wV + wQ =? 0) eqn:Ed; b2p.
+    + exists 0, 0, last. split; [reflexivity|lia].
+    + rewrite qquo_ok by exact Ed. cbn [bind].
+      apply (fee_vq_tail_ok last nEV nVE).
+      * apply div_mul_self_le; lia.
+      * exact HnV.
+      * apply mul_frac_le; lia.
+Qed.
+
+Lemma fee_vq_total last nEV nVE wV wQ k :
+  0 < nEV -> nVE <= nEV ->
+  is_fatal (fee_vq last nEV nVE wV wQ k) = false.
+Proof.
+  intros HnE HnV. destruct (fee_vq_ok last nEV nVE wV wQ k HnE HnV) as [a [b [c [H _]]]].
+  rewrite H. reflexivity.
+Qed.
+
+Lemma fee_vq_conserves last nEV nVE wV wQ k a b c :
+  0 < nEV -> nVE <= nEV ->
+  fee_vq last nEV nVE wV wQ k = Ok (a, b, c) -> a + b * nVE + c = last.
+Proof.
+  intros HnE HnV H. destruct (fee_vq_ok last nEV nVE wV wQ k HnE HnV) as [a' [b' [c' [H' Hs]]]].
+  rewrite H in H'. injection H' as -> -> ->. exact Hs.
+Qed.
+
+(* fees persisted by disburseFeesP under ANY sanity-checked weights are split
+   without error by disburseFeesVQ of the next block under ANY other weights
+   (a parameter change may take effect in between) *)
+Lemma fee_p_then_vq_total total wP wV wQ k persist b c nEV nVE wV' wQ' k' :
   fee_p total wP wV wQ k = Ok (persist, b, c) ->
   0 < nEV -> nVE <= nEV ->
-  is_fatal (fee_vq persist nEV nVE wV wQ k') = false.
+  is_fatal (fee_vq persist nEV nVE wV' wQ' k') = false.
+Proof. intros _ HnE HnV. apply fee_vq_total; assumption. Qed.
+
+(* ---- the ORIGINAL function (before c9cfe37) ---- *)
+(* it agrees with the repaired one whenever vote + next-propose weight is non-zero *)
+Lemma fee_vq_original_agrees last nEV nVE wV wQ k :
+  wV + wQ <> 0 -> fee_vq_original last nEV nVE wV wQ k = fee_vq last nEV nVE wV wQ k.
 Proof.
-  intros Hw Hp HnE HnV.
-  destruct (N.eq_dec (wV + wQ) 0) as [Hz|Hnz].
-  - (* everything goes to the proposer: nothing is persisted *)
-    assert (persist = 0).
-    { revert Hp. unfold fee_p. destruct (total =? 0).
-      - intros H; injection H as <- _ _. reflexivity.
-      - rewrite Hz, N.mul_0_r. rewrite qquo_ok by lia. cbn [bind].
-        rewrite N.div_0_l by lia. rewrite qsub_ok by lia. cbn [bind].
-        destruct (k && _); intros H; injection H as <- _ _; reflexivity. }
-    subst persist. reflexivity.
-  - apply fee_vq_total; assumption.
+  intros H. unfold fee_vq_original, fee_vq.
+  destruct (last =? 0); [reflexivity|].
+  destruct (qquo last nEV); [|reflexivity]. cbn [bind].
+  rewrite (proj2 (N.eqb_neq _ 0) H). reflexivity.
 Qed.
 
-(* REFUTATION of totality under the preconditions the code actually enforces
+(* REFUTATION of its totality under the preconditions the code enforces
    (SanityCheck: weights not ALL zero): with weights (P,V,Q) = (1,0,0) and
-   non-zero LastBlockFees the division by V+Q fails.  Reachable when a
-   change-parameters proposal switching to V = Q = 0 is executed by the
-   governance EndBlock (300_governance) of a block whose fees were already
-   persisted by the staking EndBlock (100_staking) under the old weights. *)
-Lemma fee_vq_refuted :
+   non-zero LastBlockFees the division by V+Q fails.  Reached on the real
+   multiplexer when a change-parameters proposal switching to V = Q = 0 is
+   executed by the governance EndBlock (300_governance) of a block whose fees
+   were already persisted by the staking EndBlock (100_staking). *)
+Lemma fee_vq_original_refuted :
   exists last nEV nVE wP wV wQ k,
     wP + wV + wQ <> 0 /\ 0 < nEV /\ nVE <= nEV /\ last <> 0 /\
-    fee_vq last nEV nVE wV wQ k = Fatal.
+    fee_vq_original last nEV nVE wV wQ k = Fatal /\
+    is_fatal (fee_vq last nEV nVE wV wQ k) = false.
 Proof. exists 1, 1, 1, 1, 0, 0, true. repeat split; try lia; reflexivity. Qed.
 
-Lemma fee_vq_fatal_zero_weights last nEV nVE k :
-  last <> 0 -> fee_vq last nEV nVE 0 0 k = Fatal.
+Lemma fee_vq_original_fatal_zero_weights last nEV nVE k :
+  last <> 0 -> fee_vq_original last nEV nVE 0 0 k = Fatal.
 Proof.
-  intros H. unfold fee_vq. destruct (last =? 0) eqn:E; b2p; [contradiction|].
+  intros H. unfold fee_vq_original. destruct (last =? 0) eqn:E; b2p; [contradiction|].
   unfold qquo at 1. destruct (nEV =? 0); [reflexivity|]. cbn [bind]. reflexivity.
 Qed.
+
+(* the scenario end to end on the model: fees persisted under (2,1,1), split under (1,0,0) *)
+Example fee_p_then_vq_weight_change :
+  fee_p 1000 2 1 1 true = Ok (500, 500, 0) /\
+  fee_vq_original 500 4 4 0 0 true = Fatal /\
+  fee_vq 500 4 4 0 0 true = Ok (0, 0, 500).
+Proof. repeat split; reflexivity. Qed.
 
 (* ---------- share pools ---------- *)
 Lemma stake_for_shares_ok bal ts s : exists x, stake_for_shares bal ts s = Ok x /\
